@@ -42,7 +42,8 @@ RULE = (
     "optionally refusing the write of chosen messages with OSError; oracle: the multiset of lines equals the multiset of "
     "expected serialisations of the messages whose write was not refused - none torn, merged, or missing. When validate() "
     "races serialize() (no tracebacks/reset in the mix) every snapshot must be a view from entirely before or entirely "
-    "after the validate. Facet free-running: 4-8 real "
+    "after the validate. Facets two-files(-enum): the same through one Logger whose Destinations "
+    "holds two file destinations (every file must hold every line once). Facet free-running: 4-8 real "
     "threads x 300-2000 writes without tracing, same oracles. Non-trivial: a plan that preempts a worker between two "
     "consecutive _output.py lines of one operation (or between two write() calls). Distinct = canonical JSON of the case."
 )
@@ -103,6 +104,7 @@ def check_memorylogger(case):
     written = []  # (thread, op index, kind, payload)
     snapshots = []
     flushed = []
+    events = []  # harness-side order of completed traceback writes and started flushes
     lock = threading.Lock()
     had_reset = any(op[0] == "reset" for ops in threads_ops for op in ops)
     has_invalid = any(op[0] == "write_invalid" for ops in threads_ops for op in ops)
@@ -122,6 +124,7 @@ def check_memorylogger(case):
                     write_traceback(logger, exc_info=(type(e), e, None))
                     with lock:
                         written.append(("tb", "%d.%d" % (tid, k)))
+                        events.append(("tb-done", "%d.%d" % (tid, k), op[1] % 2))
                 elif kind == "write_invalid":
                     sid = op[1] % len(types)
                     msg = {"message_type": types[sid].message_type, "v": op[2], "sid": sid, "who": "%d.%d" % (tid, k), "undeclared": 1, "task_uuid": "u", "task_level": [1], "timestamp": 1.0}
@@ -140,6 +143,8 @@ def check_memorylogger(case):
                     with lock:
                         snapshots.append(snap)
                 elif kind == "flush":
+                    with lock:
+                        events.append(("flush-start", None, op[1] % 2))
                     got = logger.flush_tracebacks(AErr if op[1] % 2 == 0 else BErr)
                     with lock:
                         flushed.extend(got)
@@ -186,6 +191,19 @@ def check_memorylogger(case):
             in_tbs = id(m) in ids_tbs
             in_fl = id(m) in set(flushed_ids)
             require(in_tbs != in_fl, "traceback-accounting", lambda: "traceback %s: in tracebackMessages=%r, flushed=%r" % (m.get("reason"), in_tbs, in_fl))
+        # a flush that started after a traceback of its class had been written must have returned it
+        done_at = dict((key, (i, cls)) for i, (what, key, cls) in enumerate(events) if what == "tb-done")
+        for m in tbs:
+            key = str(m.get("reason"))
+            if key not in done_at:
+                continue
+            i, cls = done_at[key]
+            later = [j for j, (what, _, c) in enumerate(events) if what == "flush-start" and c == cls and j > i]
+            require(
+                not later,
+                "flush-missed-traceback",
+                lambda: "traceback %s was written before flush_tracebacks of its class was called, but that flush did not return it and it is still unflushed" % key,
+            )
     # snapshots from serialize(): correctly serialised, in-order selection
     order = dict((m.get("who"), i) for i, m in enumerate(msgs) if m.get("who"))
     for snap in snapshots:
@@ -269,6 +287,15 @@ def ml_enum_runner(mod, facet, tier, seed, shard, nshards, stats):
             cases.append({"plan": [[k, 0], [j, 1], [10**6, 0]], "threads": [[["tb", 0]], [["flush", 0]]]})
     for k in range(0, 200 if tier == "thorough" else 140):
         cases.append({"plan": [[k, 0], [10**6, 1]], "threads": [[["write_invalid", 0, 1], ["validate"], ["write", 1, 2]], [["write", 2, 3]]]})
+    # flush racing flush (different classes), and flush racing reset
+    ff_mix = [[["tb", 0], ["tb", 1], ["flush", 0]], [["flush", 1]]]
+    fr_mix = [[["tb", 0], ["tb", 1], ["flush", 0]], [["reset"], ["tb", 1]]]
+    for k in range(0, 110 if tier == "thorough" else 80):
+        for mix in (ff_mix, fr_mix):
+            cases.append({"plan": [[k, 0], [10**6, 1]], "threads": mix})
+            if k % 2 == 0:
+                for j in (2, 5, 9):
+                    cases.append({"plan": [[k, 0], [j, 1], [10**6, 0]], "threads": mix})
     # serialize() racing validate() over several stored messages: preempt the validating thread at every line
     vs_mix = [[["write", 0, 1], ["write", 1, 2], ["write", 2, 3], ["validate"]], [["serialize"]]]
     for k in range(0, 150 if tier == "thorough" else 110):
@@ -403,6 +430,96 @@ def check_file(case):
     return {"steps": s.steps, "switches": len(s.switches), "switch_inside": len(inside), "writes": len(raw.calls), "refused": len(refused)}
 
 
+def check_two_files(case):
+    """Several threads log through one Logger whose Destinations holds two file destinations."""
+    from eliot import Logger
+    from eliot._output import Destinations
+
+    paths = []
+    raws = []
+    for text in case["texts"]:
+        tmp = tempfile.NamedTemporaryFile(prefix="c16-", delete=False)
+        tmp.close()
+        paths.append(tmp.name)
+        raws.append(RawFile(tmp.name, bool(text)))
+    saved = Logger._destinations
+    with sched.cooperative_locks(_output):
+        fresh = Destinations()
+    Logger._destinations = fresh
+    try:
+        fresh.add(*[FileDestination(file=r) for r in raws])
+        for r in raws:
+            del r.calls[:]
+        msgs = {}
+        logger = Logger()
+
+        def worker(tid, payloads):
+            def run():
+                for k, p in enumerate(payloads):
+                    m = {"who": "W%d.%dW" % (tid, k), "p": p, "task_uuid": "u%d" % tid, "task_level": [k + 1], "timestamp": 1.0, "message_type": "c16"}
+                    msgs[m["who"]] = m
+                    logger.write(dict(m))
+
+            return run
+
+        s = sched.Scheduler(("eliot/_output.py", "pbt/props/c16.py"), case["plan"])
+        s.run([worker(i, p) for i, p in enumerate(case["threads"])])
+        for wid, e in s.errors.items():
+            if isinstance(e, HarnessError):
+                raise e
+            raise Violation("thread-raised", "thread %d raised %r" % (wid, e))
+        contents = []
+        for r, path in zip(raws, paths):
+            r.close()
+            with open(path, "rb") as f:
+                contents.append(f.read())
+    finally:
+        Logger._destinations = saved
+        for r, path in zip(raws, paths):
+            r.close()
+            os.unlink(path)
+    for i, content in enumerate(contents):
+        try:
+            verify_lines(content, msgs)
+        except Violation as v:
+            raise Violation(v.kind, "file %d of 2: %s" % (i, v.detail))
+    inside = s.switched_inside(("__call__", "write", "send", "_encode"))
+    return {"steps": s.steps, "switches": len(s.switches), "switch_inside": len(inside), "writes": sum(len(r.calls) for r in raws), "refused": 0}
+
+
+def classify_two_files(case, info):
+    labels = ["threads=%d" % len(case["threads"]), "files:" + "+".join("text" if t else "binary" for t in case["texts"]), "switches=%d" % min(info["switches"], 6)]
+    if info["switch_inside"]:
+        labels.append("preempted-inside-write-path")
+    return info["switch_inside"] >= 1, labels
+
+
+def two_files_strategy():
+    payload = st.one_of(st.integers(0, 99), st.text(max_size=8))
+    return st.builds(
+        lambda texts, plan, threads: {"texts": texts, "plan": plan, "threads": threads},
+        st.sampled_from([[0, 0], [1, 1], [0, 1]]),
+        sched.plans(max_segments=8, max_steps=20, workers=3),
+        st.lists(st.lists(payload, min_size=1, max_size=2), min_size=2, max_size=3),
+    )
+
+
+def two_files_enum_runner(mod, facet, tier, seed, shard, nshards, stats):
+    from ..core import enumerate_cases
+
+    cases = []
+    depth = 80 if tier == "thorough" else 60
+    for texts in ([0, 0], [1, 1]):
+        for plan in sched.single_preemption_plans(2, depth):
+            cases.append({"texts": texts, "plan": plan, "threads": [[1], [2]]})
+    # a second preemption back into the first thread
+    for k in range(0, depth, 2):
+        for j in range(1, 30, 3):
+            cases.append({"texts": [0, 0], "plan": [[k, 0], [j, 1], [10**6, 0]], "threads": [[1], [2]]})
+    stats.extra["enumerated_plans"] = len(cases)
+    enumerate_cases(mod, facet, cases, shard, nshards, stats, exhaustive=True)
+
+
 def verify_lines(content, msgs):
     require(content.endswith(b"\n") or not msgs, "torn-tail", lambda: "file does not end with a newline: %r" % content[-60:])
     lines = content.split(b"\n")[:-1]
@@ -520,5 +637,7 @@ FACETS = [
     Facet("memorylogger-enum", None, check_memorylogger, classify_ml, quick=1, thorough=1, runner=ml_enum_runner),
     Facet("file", file_strategy, check_file, classify_file, quick=150, thorough=8000),
     Facet("file-enum", None, check_file, classify_file, quick=1, thorough=1, runner=file_enum_runner),
+    Facet("two-files", two_files_strategy, check_two_files, classify_two_files, quick=100, thorough=5000),
+    Facet("two-files-enum", None, check_two_files, classify_two_files, quick=1, thorough=1, runner=two_files_enum_runner),
     Facet("free-running", free_strategy, check_free, classify_free, quick=6, thorough=60, quick_shards=2, thorough_shards=4, replayable=False),
 ]
